@@ -67,6 +67,14 @@ def docs(rng, thorough):
     add([rng.choice([97, 98, 99, 10]) for _ in range(300)])
     t = [rng.choice([1, 2, 3]) for _ in range(60)]
     add(t, starts=list(range(len(t))))                       # one symbol per record
+    # alphabets at the symbol-width boundaries of the index (a byte / two bytes per symbol)
+    for k in (255, 256, 257):
+        perm = list(range(k))
+        rng.shuffle(perm)
+        add(perm + perm[:7])
+    if thorough:
+        for k in (65535, 65536, 65537):
+            add(list(range(k)) + [3, 2, 1])
     add([9, 9, 9, 9, 1, 9, 9, 9, 9])
     add([2 ** 31 - 9, 1, 2 ** 31 - 9, 2 ** 30, 0, 0, 1])    # symbol 0 and the largest symbol TLC can hold (its integers are 32-bit)
     if thorough:
